@@ -249,7 +249,16 @@ class SmartServerRequest:
         """
         client_path = client_path.decode("utf-8")
         if self._root_client_path is None:
-            # no translation necessary!
+            # no translation necessary!  The path is handed to the backing
+            # transport as it is, which decodes it once more below the chroot:
+            # a segment must not turn into a separator or a dot segment there.
+            for segment in client_path.split("/"):
+                name = segment.split(",", 1)[0]
+                decoded = urlutils.unescape(name)
+                if decoded != name and ("/" in decoded or decoded in (".", "..")):
+                    raise urlutils.InvalidURLJoin(
+                        "Encoded path separator", "/", client_path
+                    )
             return client_path
         if not client_path.startswith("/"):
             client_path = "/" + client_path
